@@ -398,11 +398,11 @@ for h in PLAN["C11"] if "C11" in PLAN else []:
 C11_FULL_QUICK = {"exp", "ln", "sin_pi", "atan_pi"}
 for fi, f in enumerate(["exp", "exp2", "ln", "log2", "sin_pi", "cos_pi", "tan_pi", "asin_pi", "acos_pi", "atan_pi"]):
     for k in range(16):
-        reg("C11", H("c11_p16_%s_s%x" % (f, k), "c11::%s" % f, gen=str(k), unwind=40, timeout=900, tier="thorough", rot=(k + fi, 4),
+        reg("C11", H("c11_p16_%s_s%x" % (f, k), "c11::%s_s%x" % (f, k), unwind=40, timeout=900, tier="quick",
                      funcs=["P16E1::%s" % f], space_bits=12, slice_of="P16E1::%s over all 65536 inputs" % f,
                      bound="every P16E1 input whose top 4 bits are %#x, against the correctly rounded table (oracle/gen_tables.py)" % k))
-    reg("C11", H("c11_p16_%s_edges" % f, "c11::%s" % f, gen="16", unwind=40, timeout=600, funcs=["P16E1::%s" % f], space_bits=8,
-                 bound="the 256 P16E1 inputs within 32 patterns of 0, 1, NaR and -1 (minpos, maxpos, longest regimes, neighbourhood of +-1), against the correctly rounded table; always in quick, whatever the slice rotation"))
+    reg("C11", H("c11_p16_%s_edges" % f, "c11::%s_edges" % f, unwind=40, timeout=600, funcs=["P16E1::%s" % f], space_bits=8,
+                 bound="the 256 P16E1 inputs within 32 patterns of 0, 1, NaR and -1 (minpos, maxpos, longest regimes, neighbourhood of +-1), against the correctly rounded table; a cheap early refutation of decode/saturation slips (also covered by the slices)"))
 reg("C11",
     H("c11_p8_exp", "c11::exp8", unwind=40, timeout=600, funcs=["P8E0::exp"], space_bits=8, bound="every P8E0 input, against the correctly rounded table"),
     H("c11_p8_ln", "c11::ln8", unwind=40, timeout=600, funcs=["P8E0::ln"], space_bits=8, bound="every P8E0 input, against the correctly rounded table"),
